@@ -29,7 +29,8 @@ RULE = ("circuits of 1-5 blocks over 8 block kinds (probe SBlock, probe AddonMai
         "of the synchronous set were seen (tags stop-order-both-seen / stop-order-one-only); "
         "persistent probe blocks (persistent=True) with and without an entry in the storage, so that the 'save the "
         "state' step of run_forever meets started but uninitialised blocks; the storage entries after the run are compared; "
-        "a case is distinct by its (input lines, trace) hash, non-trivial when at least one block was started")
+        "a storage whose __setitem__ (and pop) raise from the moment the circuit has recorded its error, with every "
+        "cause and circuit shape that has a persistent block; a case is distinct by its (input lines, trace) hash, non-trivial when at least one block was started")
 ASSUMPTIONS = [
     "instants of different origin never coincide (durations = 0 mod 10 ms and pairwise distinct, time-outs = 3, "
     "requests = 5, main task failures = 7 mod 10 ms; 0 = the yield after the start loop)",
@@ -46,6 +47,29 @@ FAR = 10 ** 6       # seconds
 
 class Boom(Exception):
     pass
+
+
+class FaultyStorage(dict):
+    """persistent storage that fails WHEN THE SIMULATION IS BEING STOPPED (the circuit has recorded its error):
+    mode 'w': __setitem__ raises (disk full, closed shelf, network storage gone); 'p': pop raises as well"""
+
+    def __init__(self, mode):
+        super().__init__()
+        self.mode = mode
+        self.circuit = None
+
+    def _failing(self):
+        return self.circuit is not None and self.circuit.error is not None
+
+    def __setitem__(self, key, value):
+        if self.mode in ('w', 'p') and self._failing():
+            raise OSError(28, 'No space left on device')
+        super().__setitem__(key, value)
+
+    def pop(self, key, *default):
+        if self.mode == 'p' and self._failing():
+            raise OSError(5, 'Input/output error')
+        return super().pop(key, *default)
 
 
 class Rec:
@@ -241,7 +265,7 @@ def build(scn, notes):
     names = [bname(i, b) for i, b in enumerate(blocks)]
     REC.idx = {n: i for i, n in enumerate(names)}
     objs = []
-    storage = {}
+    storage = FaultyStorage(scn.get('sfault') or 'n')
     for i, b in enumerate(blocks):
         kind, name, flags = b['kind'], names[i], b.get('flags', '')
         p = dict(b)
@@ -341,6 +365,8 @@ def build(scn, notes):
     # a storage is set up as soon as one block is persistent; it may be empty (first run)
     if any(f in b.get('flags', '') for b in blocks for f in 'rp'):
         edzed.get_circuit().set_persistent_data(storage)
+    if not scn['cause'].get('before'):
+        storage.circuit = edzed.get_circuit()       # armed from the moment the circuit records its error
     notes['storage'] = storage
     return names, objs
 
@@ -511,6 +537,11 @@ def run_once(scn, pad=0):
             simtask = circuit._simtask
         out['end_ms'] = end_ms
         out['run_error'] = type(run_error).__name__ if run_error is not None else None
+        # run_forever raises the error the circuit has recorded (the very object)
+        # (a CancelledError reaches the awaiting task as a fresh CancelledError: compare the kind then)
+        out['raised_recorded'] = bool(
+            runner != 'task' or scn['cause'].get('before') or run_error is circuit.error
+            or (isinstance(circuit.error, asyncio.CancelledError) and isinstance(run_error, asyncio.CancelledError)))
         out['simtask_done'] = simtask is not None and simtask.done()
         # the harness' own helpers are finished or cancelled; then a few yields for the unwinding
         await asyncio.sleep(0)
@@ -602,7 +633,8 @@ def encode_run(scn, r):
     cause = scn['cause']
     lines = [f"lifecycle reset {cause['kind']} {int(bool(cause.get('before')))} {cause['time']} "
              f"{int(bool(cause.get('late')))} {int(bool(scn.get('wait_init')))} "
-             f"{int(bool(cause.get('raise_after')))}"]
+             f"{int(bool(cause.get('raise_after')))} {scn.get('sfault') or 'n'} "
+             f"{cause['target'] if cause.get('target') is not None else '-'}"]
     trace = ['ok']
     for i, b in enumerate(scn['blocks']):
         lines.append(blk_line(b))
@@ -672,6 +704,7 @@ def run_impl(scn):
     started = any(kind == 'started' for kind, *_ in runs[0]['log'])
     faults = sorted(set(''.join(b.get('flags', '') for b in scn['blocks'])) & set('SRAGVCHPQ'))
     tags.append('faults=' + (''.join(faults) or '-'))
+    tags.append('storage-fault=' + (scn.get('sfault') or '-'))
     return {'lines': lines, 'trace': trace, 'tags': tags, 'nontrivial': started,
             'runs': [{k: v for k, v in r.items() if k != 'error'} | {'error': repr(r['error'])} for r in runs]}
 
@@ -679,7 +712,7 @@ def run_impl(scn):
 # ------------------------------------------------------------------ oracle (from the property text)
 
 PRIORITY = ['stop_exactly_started', 'cleanup_error_isolated', 'async_before_sync', 'stop_async_awaited_bounded',
-            'simulation_finished', 'no_restart_no_modify', 'no_live_task_at_end', 'no_pending_timer',
+            'simulation_finished', 'raises_recorded_error', 'no_restart_no_modify', 'no_live_task_at_end', 'no_pending_timer',
             'no_live_init_task', 'stop_data_last', 'event_shutdown_documented', 'no_live_helper_task']
 KNOWN_SHAPES = ('outputasync_not_initialized',)
 
@@ -709,6 +742,9 @@ def oracle_run(scn, r):
     stops = [k for kind, k, _x, _t in log if kind == 'stop']
     faults = ''.join(b.get('flags', '') for b in scn['blocks'])
     cleanup_faults = 'P' in faults or 'Q' in faults
+    if not r.get('raised_recorded', True):
+        out.append({'clause': 'raises_recorded_error',
+                    'what': f"run_forever() raised {r['run_error']}, the recorded error is {r.get('error')}"})
     if len(set(started)) != len(started):
         out.append({'clause': 'stop_exactly_started', 'what': f'a block was started twice: {started}'})
     if sorted(stops) != sorted(started):
@@ -786,7 +822,7 @@ def mk(kind, flags='', **kw):
     return b
 
 
-def finish(blocks, cause, rng=None, runner=None, wait_init=None):
+def finish(blocks, cause, rng=None, runner=None, wait_init=None, sfault=None):
     """fill in distinct durations, the trigger/control blocks and the wait_init flag"""
     blocks = [dict(b) for b in blocks]
     for i, b in enumerate(blocks):
@@ -820,6 +856,8 @@ def finish(blocks, cause, rng=None, runner=None, wait_init=None):
     scn['runner'] = runner
     has_outf = any(b['kind'] == 'outf' for b in blocks)
     scn['wait_init'] = bool(has_outf or wait_init) and not cause.get('before')
+    if sfault and any(f in b.get('flags', '') for b in blocks for f in 'rp'):
+        scn['sfault'] = sfault      # only with a storage, i.e. with a persistent block
     return scn
 
 
@@ -902,6 +940,15 @@ def defect_scenarios():
     # a persistent block that is started but still uninitialised when the simulation is terminated, with and
     # without an old entry in the storage: init_regular fault of an earlier / later block, never initialised
     # block, abort during the asynchronous initialisation, start() fault after it
+    # the storage fails when the simulation is being stopped: the save step must not prevent the clean-up
+    for sf in ('w', 'p'):
+        for ck in ('shutdown', 'abort', 'supportEnd', 'sigterm'):
+            yield finish([mk('sync', 'sp'), mk('async', 'sr'), mk('timer', 'm'), mk('outf', 't', ons=2), mk('outa', 't'),
+                          mk('sync', 's')], {'kind': ck, 'time': 205}, sfault=sf)
+        yield finish([mk('sync', 'sp'), mk('sync', 'sG'), mk('async', 'sp')], {'kind': 'shutdown', 'time': 205}, sfault=sf)
+        yield finish([mk('sync', 'dp'), mk('cblock', 'C'), mk('async', 's')], {'kind': 'shutdown', 'time': 205}, sfault=sf)
+        yield finish([mk('async', 'ap', idur=140, ito=163), mk('sync', 'sr')], {'kind': 'abort', 'time': 15}, sfault=sf)
+        yield finish([mk('sync', 'sr'), mk('async', 's', mf=57)], {'kind': 'shutdown', 'time': 205}, sfault=sf)
     for pf in ('p', 'r', 'rR'):
         yield finish([mk('sync', 's'), mk('sync', 'sG'), mk('sync', 'd' + pf), mk('async', 's')],
                      {'kind': 'shutdown', 'time': 205})
@@ -1016,7 +1063,8 @@ def random_scenario(rng):
         cause['before'] = True
         cause['kind'] = rng.choice(['shutdown', 'abort'])
         runner = 'task'
-    return finish(blocks, cause, rng=rng, runner=runner, wait_init=rng.random() < 0.4)
+    return finish(blocks, cause, rng=rng, runner=runner, wait_init=rng.random() < 0.4,
+                  sfault=rng.choice([None, None, None, 'w', 'p']))
 
 
 def scenarios(rng, tier):
